@@ -8,6 +8,42 @@ pub struct ValueGen {
 	pub strings: Vec<String>,
 	pub numbers: Vec<String>,
 	pub max_children: usize,
+	/// also draw number spellings from the RFC 8259 number grammar
+	pub grammar_numbers: bool,
+}
+
+/// a random spelling derived from the grammar  [-] int [frac] [exp]
+pub fn number_spelling(rng: &mut Rng) -> String {
+	let mut s = String::new();
+	if rng.chance(1, 3) {
+		s.push('-');
+	}
+	if rng.chance(1, 4) {
+		s.push('0');
+	} else {
+		s.push((b'1' + rng.below(9) as u8) as char);
+		for _ in 0..rng.below(4) {
+			s.push((b'0' + rng.below(10) as u8) as char);
+		}
+	}
+	if rng.chance(1, 2) {
+		s.push('.');
+		for _ in 0..1 + rng.below(4) {
+			s.push((b'0' + rng.below(10) as u8) as char);
+		}
+	}
+	if rng.chance(1, 2) {
+		s.push(if rng.chance(1, 2) { 'e' } else { 'E' });
+		match rng.below(3) {
+			0 => s.push('+'),
+			1 => s.push('-'),
+			_ => (),
+		}
+		for _ in 0..1 + rng.below(3) {
+			s.push((b'0' + rng.below(10) as u8) as char);
+		}
+	}
+	s
 }
 
 impl ValueGen {
@@ -17,14 +53,16 @@ impl ValueGen {
 			strings: vec!["".into(), "x".into(), "y".into()],
 			numbers: vec!["0".into(), "1".into(), "2".into()],
 			max_children: 3,
+			grammar_numbers: false,
 		}
 	}
 
 	pub fn leaf(&self, rng: &mut Rng) -> Value {
-		match rng.below(5) {
+		match rng.below(6) {
 			0 => Value::Null,
 			1 => Value::Boolean(rng.chance(1, 2)),
 			2 => Value::String(rng.pick(&self.strings).as_str().into()),
+			3 if self.grammar_numbers => Value::Number(json_syntax::NumberBuf::new(number_spelling(rng).into_bytes().into()).unwrap()),
 			_ => Value::Number(json_syntax::NumberBuf::new(rng.pick(&self.numbers).clone().into_bytes().into()).unwrap()),
 		}
 	}
